@@ -4,7 +4,7 @@
    IndexError, ValueError, ...) is unreachable. *)
 From Coq Require Import ZArith List Bool Lia.
 Require Import Rig.Model.Base Rig.Model.Place Rig.Spec.Place Rig.Proofs.Place Rig.Proofs.PlaceCore
-        Rig.Proofs.PlaceMerge Rig.Proofs.PlaceSeq Rig.Proofs.PlaceComplete.
+        Rig.Proofs.PlaceMerge Rig.Proofs.PlaceSeq Rig.Proofs.PlaceComplete Rig.Proofs.PlaceSA.
 Import ListNotations.
 Open Scope Z_scope.
 
@@ -567,4 +567,245 @@ Proof.
   - destruct Hdoc as [Hk | Hk]; subst k; [right; left | right; right]; reflexivity.
   - destruct Hdoc.
   - destruct Hdoc.
+Qed.
+
+
+(* ---------------------------------------------------------------------------------------------- *)
+(* the annealer up to the kernel (constraints, shuffles, initial placement) and its trivial exit    *)
+(* ---------------------------------------------------------------------------------------------- *)
+Lemma initial_vertex_doc : forall m d locs,
+  (forall c, In c locs -> live m c = true) -> documented (initial_vertex m d locs).
+Proof.
+  intros m d locs. induction locs as [|x t IH]; intros H; cbn [initial_vertex]; [doc_triv|].
+  apply bind_doc; [apply try_chip_doc; apply H; left; reflexivity|].
+  intros o _. destruct o; [exact I|]. apply IH. intros c Hc. apply H. right. exact Hc.
+Qed.
+
+Lemma initial_loop_doc : forall vr vs m pl locs,
+  (forall v, In v vs -> In v (map fst vr)) -> (forall c, In c locs -> live m c = true) ->
+  documented (initial_loop vr vs m pl locs).
+Proof.
+  intros vr vs. induction vs as [|v vs IH]; intros m pl locs Hvs Hlive; cbn [initial_loop]; [exact I|].
+  destruct (zassoc_key_Some v vr (Hvs v (or_introl eq_refl))) as [d Hd]. rewrite Hd.
+  apply bind_doc; [apply initial_vertex_doc; exact Hlive|].
+  intros [[c r'] locs'] Hv. apply initial_vertex_some in Hv. destruct Hv as [_ [R2 [_ [_ R5]]]].
+  destruct (mset_live m c r' R2) as [m1 Hs]. rewrite Hs. pose proof (mset_spec _ _ _ _ Hs) as [F _].
+  apply IH; [intros u Hu; apply Hvs; right; exact Hu|].
+  intros x Hx. rewrite (live_frame m m1 x F). apply Hlive. apply R5. exact Hx.
+Qed.
+
+Theorem sa_prepare_documented_errors : forall vr m cs lp vp,
+  wf_problem vr m cs -> consistent cs ->
+  (exists s0, sa_prepare vr m cs lp vp = Ok s0)
+  \/ sa_prepare vr m cs lp vp = Failed E_insufficient
+  \/ sa_prepare vr m cs lp vp = Failed E_invalid.
+Proof.
+  intros vr m cs lp vp W Hc.
+  assert (Hdoc : documented (sa_prepare vr m cs lp vp)).
+  { unfold sa_prepare.
+    destruct (apply_sc_ok m cs (fun v => v) [] vr []) as [vr1 [cs1 [new [Ea _]]]].
+    { cbn [app]. rewrite subst_c_id. apply wf_problem_pwf; assumption. }
+    { cbn [app length]. rewrite subst_c_id. split.
+      - intros v Hv. apply (wf_vr_ids _ _ _ W) in Hv. lia.
+      - intros k v Hk Hv. apply (wf_constr_vertices _ _ _ W k v Hk) in Hv. apply (wf_vr_ids _ _ _ W) in Hv. lia. }
+    cbn [app] in Ea. unfold apply_same_chip. rewrite Ea. cbn [bind].
+    destruct (merged_problem vr m cs vr1 cs1 new W Hc Ea) as [Hp _].
+    apply bind_doc.
+    { apply (handle_cs_doc vr1 m cs1 m [] (KInv_init m (wf_exc_nodup _ _ _ W)) (pwf_cv _ _ _ Hp)).
+      apply (wf_KInv_cs vr m cs vr1 cs1 new W Hc Ea). }
+    intros [m1 fixed] Eh.
+    set (movable := filter (fun v => negb (pl_mem v fixed)) (map fst vr1)).
+    destruct (shuffle (length (raster m1)) lp (raster m1)) as [|l0 lt] eqn:El; [doc_triv|]. rewrite <- El.
+    apply bind_doc.
+    { apply initial_loop_doc.
+      - intros v Hv. apply shuffle_In in Hv; [|lia]. unfold movable in Hv. apply filter_In in Hv. tauto.
+      - intros c Hc'. apply shuffle_In in Hc'; [|lia]. apply raster_In in Hc'. exact Hc'. }
+    intros [m2 pl] _. exact I. }
+  destruct (sa_prepare vr m cs lp vp) as [s0 | k | |] eqn:E; cbn [documented] in Hdoc.
+  - left. exists s0. reflexivity.
+  - destruct Hdoc as [Hk | Hk]; subst k; [right; left | right; right]; reflexivity.
+  - destruct Hdoc.
+  - destruct Hdoc.
+Qed.
+
+(* place() when no annealing is done: a placement or a documented error, for all shuffles *)
+Theorem sa_trivial_documented_errors : forall vr m cs lp vp,
+  wf_problem vr m cs -> consistent cs ->
+  documented_outcome (sa_place_trivial vr m cs lp vp).
+Proof.
+  intros vr m cs lp vp W Hc. unfold documented_outcome, sa_place_trivial.
+  destruct (length vr =? 0)%nat; [left; eexists; reflexivity|].
+  destruct (sa_prepare_documented_errors vr m cs lp vp W Hc) as [[s0 E] | [E | E]]; rewrite E; cbn [bind].
+  - destruct (sa_prepare_inv vr m cs lp vp s0 W Hc E) as [cs1 [Ea Hsa]].
+    destruct (merged_problem vr m cs (ss_vr s0) cs1 (ss_subs s0) W Hc Ea) as [Hp [Hdeg [_ Hfin]]].
+    pose proof (SAInv_feasible _ _ _ _ _ (pwf_core _ _ _ Hp) (pwf_cv _ _ _ Hp) Hdeg Hsa) as Hf1.
+    destruct (Hfin _ Hf1) as [pl' [Hfe _]]. cbn [sa_init_state st_pl] in Hfe. left. exists pl'. exact Hfe.
+  - right. left. reflexivity.
+  - right. right. reflexivity.
+Qed.
+
+(* ---------------------------------------------------------------------------------------------- *)
+(* completeness of the annealer's preparation (initial placement) under the property's premise      *)
+(* ---------------------------------------------------------------------------------------------- *)
+Lemma take_nth_NoDup : forall {A} n (l : list A) x l', take_nth n l = Some (x, l') -> NoDup l -> NoDup l' /\ ~ In x l'.
+Proof.
+  intros A n l. revert n. induction l as [|h t IH]; intros n x l' H Hnd; [destruct n; discriminate|].
+  inversion Hnd as [|? ? Hh Ht]. subst. destruct n as [|n]; cbn [take_nth] in H.
+  - inversion H. subst. split; assumption.
+  - destruct (take_nth n t) as [[x1 t1]|] eqn:E; [|discriminate]. inversion H. subst.
+    destruct (IH n x t1 E Ht) as [G1 G2]. destruct (take_nth_spec n t x t1 E) as [S1 _]. split.
+    + constructor; [|exact G1]. intros Hin. apply Hh. apply S1. right. exact Hin.
+    + intros [Hx | Hx]; [|contradiction]. subst. apply Hh. apply S1. left. reflexivity.
+Qed.
+
+Lemma shuffle_NoDup : forall {A} fuel picks (l : list A), NoDup l -> NoDup (shuffle fuel picks l).
+Proof.
+  intros A fuel. induction fuel as [|fuel IH]; intros picks l Hnd; cbn [shuffle]; [exact Hnd|].
+  destruct l as [|h t] eqn:El; [constructor|]. rewrite <- El in *.
+  set (n := match picks with [] => O | p :: _ => Nat.modulo p (length l) end).
+  destruct (take_nth n l) as [[x l']|] eqn:E; [|exact Hnd].
+  destruct (take_nth_NoDup n l x l' E Hnd) as [G1 G2]. constructor; [|apply IH; exact G1].
+  intros Hin. destruct (Nat.le_gt_cases (length l') fuel) as [Hle | Hgt].
+  - apply shuffle_In in Hin; [contradiction | exact Hle].
+  - (* not enough fuel left: the remainder is returned unshuffled or partly shuffled, still a sub-list *)
+    clear -Hin G2. revert picks l' Hin G2. induction fuel as [|f IHf]; intros picks l' Hin G2; cbn [shuffle] in Hin; [contradiction|].
+    destruct l' as [|h' t']; [destruct Hin|].
+    destruct (take_nth (match tl picks with [] => O | p :: _ => Nat.modulo p (length (h' :: t')) end) (h' :: t')) as [[y l2]|] eqn:E2;
+      [|contradiction].
+    destruct (take_nth_spec _ _ _ _ E2) as [S1 _]. destruct Hin as [Hin | Hin].
+    + subst. apply G2. apply S1. left. reflexivity.
+    + apply (IHf (tl picks) l2 Hin). intros H. apply G2. apply S1. right. exact H.
+Qed.
+
+Lemma initial_vertex_ok : forall m d locs,
+  (forall c, In c locs -> live m c = true) ->
+  (exists c, In c locs /\ overallocated (subtract_resources (chip_res m c) d) = false) ->
+  exists c r' locs',
+    initial_vertex m d locs = Ok (c, r', locs')
+    /\ In c locs' /\ live m c = true /\ r' = subtract_resources (chip_res m c) d /\ overallocated r' = false
+    /\ (forall x, In x locs' -> In x locs)
+    /\ (forall x, In x locs -> ~ In x locs' -> overallocated (subtract_resources (chip_res m x) d) = true).
+Proof.
+  intros m d locs. induction locs as [|x t IH]; intros Hlive [c0 [Hc0 Hfit0]]; [destruct Hc0|].
+  cbn [initial_vertex]. unfold try_chip, mget. rewrite (Hlive x (or_introl eq_refl)). cbn [bind].
+  destruct (overallocated (subtract_resources (chip_res m x) d)) eqn:Eo.
+  - destruct IH as [c [r' [locs' [G1 [G2 [G3 [G4 [G5 [G6 G7]]]]]]]]].
+    + intros c Hc. apply Hlive. right. exact Hc.
+    + exists c0. split; [|exact Hfit0]. destruct Hc0 as [E | E]; [subst; congruence | exact E].
+    + exists c, r', locs'. split; [exact G1|]. split; [exact G2|]. split; [exact G3|]. split; [exact G4|]. split; [exact G5|].
+      split; [intros y Hy; right; apply G6; exact Hy|].
+      intros y [Hy | Hy] Hn; [subst; exact Eo | apply G7; assumption].
+  - exists x, (subtract_resources (chip_res m x) d), (x :: t).
+    split; [reflexivity|]. split; [left; reflexivity|]. split; [apply Hlive; left; reflexivity|]. split; [reflexivity|].
+    split; [exact Eo|]. split; [intros y Hy; exact Hy | intros y Hy Hn; contradiction].
+Qed.
+
+(* [P] is the placement used for the bookkeeping (fixed vertices and the vertices placed so far); the loop's own
+   dictionary only collects the new vertices *)
+Lemma initial_loop_complete : forall vr m0 cs r0,
+  wf_problem vr m0 cs -> unit_premise vr m0 cs r0 ->
+  forall vs m P pl locs,
+    LoopInv vr m0 r0 m P -> NoDup vs ->
+    (forall v, In v vs -> In v (map fst vr) /\ pl_mem v P = false) ->
+    locs <> [] -> (forall c, In c locs -> live m0 c = true) ->
+    (forall c, live m0 c = true -> ~ In c locs -> rget r0 (chip_res m c) <= 0) ->
+    exists res, initial_loop vr vs m pl locs = Ok res.
+Proof.
+  intros vr m0 cs r0 W U vs. induction vs as [|v vs IH]; intros m P pl locs Hinv Hnd Hvs Hne Hlocs Hfull.
+  - eexists. reflexivity.
+  - cbn [initial_loop]. inversion Hnd as [|? ? Hv_ni Hnd']. subst.
+    destruct (Hvs v (or_introl eq_refl)) as [Hvk Hnew].
+    destruct (zassoc_key_Some v vr Hvk) as [d Hd]. rewrite Hd.
+    assert (Hdin : In (v, d) vr) by (apply zassoc_In; exact Hd).
+    assert (Hlm : forall c, live m c = live m0 c) by (intros c; apply live_frame; exact (li_frame _ _ _ _ _ Hinv)).
+    assert (Hroom : forall c, live m0 c = true -> rget r0 d <= rget r0 (chip_res m c) ->
+                              overallocated (subtract_resources (chip_res m c) d) = false).
+    { intros c Hc Hle. apply overallocated_false_intro. intros r q' Hin. apply subtract_entries in Hin.
+      destruct Hin as [q [Hq Eq]]. pose proof (li_nn _ _ _ _ _ Hinv c r q Hc Hq) as Hqn.
+      destruct (Z.eq_dec r r0) as [E | E].
+      - subst r. assert (Hqq : rget r0 (chip_res m c) = q).
+        { unfold rget. rewrite (zassoc_NoDup_In r0 q (chip_res m c)); [reflexivity | | exact Hq].
+          exact (eq_ind_r (fun l => NoDup l) (chip_res_nodup vr m0 cs r0 c U) (li_keys _ _ _ _ _ Hinv c Hc)). }
+        lia.
+      - rewrite (rget_other_zero vr m0 cs r0 v d r U Hdin E) in Eq. lia. }
+    assert (Hnn0 : forall c, live m0 c = true -> 0 <= rget r0 (chip_res m c)).
+    { intros c Hc. apply rget_nonneg_of_entries. intros r q Hq. apply (li_nn _ _ _ _ _ Hinv c r q Hc Hq). }
+    assert (Hex : exists c, In c locs /\ overallocated (subtract_resources (chip_res m c) d) = false).
+    { destruct (rget_unit vr m0 cs r0 v d U Hdin) as [Hz | Ho].
+      - destruct locs as [|c t]; [congruence|]. exists c. split; [left; reflexivity|].
+        apply Hroom; [apply Hlocs; left; reflexivity|]. rewrite Hz. apply Hnn0. apply Hlocs. left. reflexivity.
+      - assert (Hpos : 0 < tfree r0 (raster m0) m).
+        { pose proof (li_budget _ _ _ _ _ Hinv) as Hb.
+          pose proof (unplaced_set r0 vr P v d (0, 0) (wf_vr_nodup _ _ _ W) Hd Hnew) as Hu.
+          pose proof (unplaced_nonneg r0 vr (pl_set v (0, 0) P) (wf_demand_nonneg _ _ _ W)). lia. }
+        apply sumf_exists_pos in Hpos. destruct Hpos as [c [Hc Hgc]]. apply raster_In in Hc.
+        exists c. split.
+        + destruct (in_dec chip_eq_dec c locs) as [Hi | Hn]; [exact Hi|]. specialize (Hfull c Hc Hn). lia.
+        + apply Hroom; [exact Hc | lia]. }
+    destruct (initial_vertex_ok m d locs) as [c [r' [locs' [G1 [G2 [G3 [G4 [G5 [G6 G7]]]]]]]]].
+    + intros c Hc. rewrite Hlm. apply Hlocs. exact Hc.
+    + exact Hex.
+    + rewrite G1. cbn [bind]. destruct (mset_live m c r' G3) as [m1 Hs]. rewrite Hs. subst r'.
+      rewrite Hlm in G3. pose proof (mset_spec _ _ _ _ Hs) as [_ [_ [_ [_ Hcr]]]].
+      apply (IH m1 (pl_set v c P) (pl_set v c pl) locs').
+      * apply (LoopInv_place vr m0 cs r0 m P v d c m1 W Hinv Hd Hnew G3 G5 Hs).
+      * exact Hnd'.
+      * intros u Hu. destruct (Hvs u (or_intror Hu)) as [H1 H2]. split; [exact H1|].
+        rewrite pl_mem_set. destruct (u =? v) eqn:E; [|exact H2]. apply Z.eqb_eq in E. subst u. contradiction.
+      * intros E. subst locs'. destruct G2.
+      * intros x Hx. apply Hlocs. apply G6. exact Hx.
+      * intros x Hx Hn. rewrite Hcr. destruct (chip_eqb x c) eqn:E; [apply chip_eqb_eq in E; subst x; contradiction|].
+        destruct (in_dec chip_eq_dec x locs) as [Hi | Hni]; [|apply Hfull; assumption].
+        specialize (G7 x Hi Hn).
+        destruct (Z_le_gt_dec (rget r0 d) (rget r0 (chip_res m x))) as [Hle | Hgt].
+        -- rewrite (Hroom x Hx Hle) in G7. discriminate.
+        -- destruct (rget_unit vr m0 cs r0 v d U Hdin) as [Hz | Ho]; [|lia]. specialize (Hnn0 x Hx). lia.
+Qed.
+
+Theorem sa_prepare_complete : forall vr m cs r0 lp vp,
+  wf_problem vr m cs -> unit_premise vr m cs r0 -> vr <> [] ->
+  exists s0, sa_prepare vr m cs lp vp = Ok s0.
+Proof.
+  intros vr m cs r0 lp vp W U Hvrne. unfold sa_prepare.
+  unfold apply_same_chip. rewrite (apply_sc_none cs [] vr [] (up_no_groups _ _ _ _ U)). cbn [app bind].
+  destruct (handle_cs_complete vr m cs r0 W U cs [] m [] eq_refl (InvEq_init vr m (wf_exc_nodup _ _ _ W)))
+    as [m1 [pl0 [Hh [Hinv Hfrom]]]].
+  { intros v l Hz. discriminate. }
+  rewrite Hh. cbn [bind].
+  pose proof (LoopInv_after_constraints vr m cs r0 m1 pl0 W U Hinv Hfrom) as Hloop.
+  rewrite (raster_frame m m1 (ie_frame _ _ _ _ _ Hinv)).
+  set (movable := filter (fun v => negb (pl_mem v pl0)) (map fst vr)).
+  set (locs := shuffle (length (raster m)) lp (raster m)).
+  assert (Hlocs_in : forall c, In c locs <-> In c (raster m)) by (intros c; unfold locs; apply shuffle_In; lia).
+  destruct (up_some_chip _ _ _ _ U Hvrne) as [c1 Hc1].
+  destruct locs as [|l0 lt] eqn:El.
+  { exfalso. apply raster_In in Hc1. apply Hlocs_in in Hc1. destruct Hc1. }
+  rewrite <- El in *.
+  destruct (initial_loop_complete vr m cs r0 W U (shuffle (length movable) vp movable) m1 pl0 [] locs Hloop)
+    as [[m2 pl] Hres].
+  - apply shuffle_NoDup. unfold movable. apply NoDup_filter. exact (wf_vr_nodup _ _ _ W).
+  - intros v Hv. apply shuffle_In in Hv; [|lia]. unfold movable in Hv. apply filter_In in Hv. destruct Hv as [H1 H2].
+    split; [exact H1 | apply negb_true_iff; exact H2].
+  - rewrite El. discriminate.
+  - intros c Hc. apply Hlocs_in in Hc. apply raster_In. exact Hc.
+  - intros c Hc Hn. exfalso. apply Hn. apply Hlocs_in. apply raster_In. exact Hc.
+  - rewrite Hres. cbn [bind]. eexists. reflexivity.
+Qed.
+
+Theorem sa_trivial_complete : forall vr m cs r0 lp vp,
+  wf_problem vr m cs -> unit_premise vr m cs r0 ->
+  exists pl, sa_place_trivial vr m cs lp vp = Ok pl.
+Proof.
+  intros vr m cs r0 lp vp W U. unfold sa_place_trivial.
+  destruct (length vr =? 0)%nat eqn:Elen; [eexists; reflexivity|].
+  assert (Hvrne : vr <> []) by (intros E; subst vr; cbn in Elen; discriminate).
+  destruct (sa_prepare_complete vr m cs r0 lp vp W U Hvrne) as [s0 Hs0]. rewrite Hs0. cbn [bind].
+  (* no same-chip groups: nothing to expand *)
+  assert (Hsubs : ss_subs s0 = []).
+  { unfold sa_prepare, apply_same_chip in Hs0. rewrite (apply_sc_none cs [] vr [] (up_no_groups _ _ _ _ U)) in Hs0.
+    cbn [app bind] in Hs0. destruct (handle_cs vr cs m []) as [[m1 fixed]| | |]; cbn [bind] in Hs0; try discriminate.
+    destruct (shuffle (length (raster m1)) lp (raster m1)); [discriminate|].
+    destruct (initial_loop vr _ m1 [] _) as [[m2 pl]| | |]; cbn [bind] in Hs0; try discriminate.
+    inversion Hs0. reflexivity. }
+  rewrite Hsubs. cbn [rev finalise]. eexists. reflexivity.
 Qed.
